@@ -93,7 +93,12 @@ func ruleF10(c *Ctx) *RuleResult {
 				for _, e := range phi.Edges {
 					if add, ok := e.(*ssa.BinOp); ok && add.Op == token.ADD && add.X == phi {
 						if call, ok := add.Y.(*ssa.Call); ok && call.Call.StaticCallee() != nil && strings.HasPrefix(call.Call.StaticCallee().Name(), "PacketDuration") {
-							okShape = true
+							// ... of the packet of THIS iteration: the argument is the element at the range index
+							if u, ok := call.Call.Args[0].(*ssa.UnOp); ok {
+								if ia, ok := u.X.(*ssa.IndexAddr); ok && isRangeIdx(ia.Index) && phi.Block().Dominates(call.Block()) {
+									okShape = true
+								}
+							}
 						}
 					}
 				}
